@@ -327,11 +327,30 @@ func vxMapApply(m *Map, c *vxContent, op int, k string, nv interface{}, del bool
 
 // VxH_Map_step: one operation from an arbitrary valid state of the given
 // shape (C11 inductive step; also C07a, C08, C13(i)).
-func VxH_Map_step(op, tableLen, chain, minLen int) {
+func VxH_Map_step(op, tableLen, chain, minLen, mode int) {
 	m, c := vxArbMap(tableLen, chain, minLen)
 	k := VxStr("k")
 	nv := VxArbVal("nv")
 	del := VxBool("del")
+	if mode != 0 {
+		// mode 1: the operation does not need to grow the table; mode 2: it does
+		t := (*mapTable)(m.table)
+		thr := int64(float64(tableLen) * entriesPerMapBucket * mapLoadFactor)
+		root := &t.buckets[hashString(k, t.seed)&uint64(tableLen-1)]
+		full := true
+		for b := root; ; b = (*bucketPadded)(b.next) {
+			for s := 0; s < entriesPerMapBucket; s++ {
+				if b.keys[s] == nil {
+					full = false
+				}
+			}
+			if b.next == nil {
+				break
+			}
+		}
+		grow := !c.has(k) && full && int64(c.count()) > thr
+		VxAssume(grow == (mode == 2))
+	}
 	VxReach("pre-state built")
 	vxMapApply(m, c, op, k, nv, del)
 	VxReach("operation returned")
